@@ -1070,6 +1070,11 @@ def rule_equality(m, classes=None):
                 if rt != ('bool', False):
                     early = early or (n['i'], 'a return other than `return false` leaves a comparison loop')
             if n['k'] in ('ForStmt', 'WhileStmt') and n.get('cond', -1) >= 0:
+                ends = [cj for cj in _conjuncts(ctx.tt.t(n['cond'])) if cj[0] == 'bin' and cj[1] == '!=' and cj[3][0] == 'mcall' and
+                        cj[3][1].endswith(('::end', '::cend'))]
+                if len({cj[3][2] for cj in ends}) > 1:
+                    early = early or (n['i'], 'the loop walks two lists in lockstep and ends as soon as the shorter one is exhausted '
+                                              '(`%s`)' % f.expr_text(n['cond'])[:70])
                 for cj in _conjuncts(ctx.tt.t(n['cond'])):
                     if cj[0] == 'var' and f.unit.decl(cj[1]).get('ctype') == 'bool' and _only_cleared(f, ctx.tt, cj[1]):
                         continue
